@@ -11,20 +11,20 @@ import (
 
 // Job is one harness instantiation: a harness function plus parameters.
 type Job struct {
-	ID       string
-	Harness  string            // function name in package jsonpath
-	Params   map[string]string // concrete parameters (path text, config variant, ...)
-	Docs     map[string]*DocCfg
-	MapOrder string // desc (default) | asc | insertion | perm
-	PoolMode string // lifo (default) | fresh | fifo | any
-	Fuel     int
-	MaxDepth int
-	MaxPaths int
-	TrackAccess bool
+	ID               string
+	Harness          string            // function name in package jsonpath
+	Params           map[string]string // concrete parameters (path text, config variant, ...)
+	Docs             map[string]*DocCfg
+	MapOrder         string // desc (default) | asc | insertion | perm
+	PoolMode         string // lifo (default) | fresh | fifo | any
+	Fuel             int
+	MaxDepth         int
+	MaxPaths         int
+	TrackAccess      bool
 	DepthIsViolation bool // exceeding the call-depth bound is a violation candidate (C02), not merely inconclusive
-	TimeLimit   time.Duration
-	Budget      int                  // path budget before falling back to Narrow[i]
-	Narrow      []map[string]*DocCfg // successively narrower document bounds
+	TimeLimit        time.Duration
+	Budget           int                  // path budget before falling back to Narrow[i]
+	Narrow           []map[string]*DocCfg // successively narrower document bounds
 
 	nodes    map[string]*DocNode
 	nodeList []*DocNode
@@ -45,33 +45,33 @@ func (j *Job) reset() {
 
 // PathResult summarises one completed symbolic path.
 type PathResult struct {
-	Status   PathStatus
-	Msg      string
-	Choices  []Choice
-	Viol     []Violation
-	Fixture  *Fixture // concrete witness of this path (nil if not requested / unsat)
-	Out      map[string]string
-	Asserts  []string // labels of assertions reached
-	Steps    int
+	Status  PathStatus
+	Msg     string
+	Choices []Choice
+	Viol    []Violation
+	Fixture *Fixture // concrete witness of this path (nil if not requested / unsat)
+	Out     map[string]string
+	Asserts []string // labels of assertions reached
+	Steps   int
 }
 
 // JobResult is the outcome of exploring one job.
 type JobResult struct {
-	Job        *Job
-	Paths      []PathResult
-	NPaths     int
-	BoundUsed  int // 0 = the job's own bound, i = Narrow[i-1]
-	NDone      int
-	NSkipped   int
-	NAborted   int
-	NPanicked  int
-	NViol      int
-	Forks      int
-	Queries    int
-	Elapsed    time.Duration
-	Truncated  bool
-	AbortMsgs  []string
-	Labels     map[string]int // assertion label -> times reached
+	Job       *Job
+	Paths     []PathResult
+	NPaths    int
+	BoundUsed int // 0 = the job's own bound, i = Narrow[i-1]
+	NDone     int
+	NSkipped  int
+	NAborted  int
+	NPanicked int
+	NViol     int
+	Forks     int
+	Queries   int
+	Elapsed   time.Duration
+	Truncated bool
+	AbortMsgs []string
+	Labels    map[string]int // assertion label -> times reached
 }
 
 // Explore runs the job's harness over all symbolic paths (DFS). If the job
@@ -238,7 +238,7 @@ type Fixture struct {
 	Holes   map[string]string      `json:"holes,omitempty"` // numeral text -> replacement literal
 	Docs    map[string]interface{} `json:"docs,omitempty"`
 	Choices map[string]int         `json:"choices,omitempty"`
-	Out     map[string]string      `json:"out,omitempty"`      // engine-predicted outputs
+	Out     map[string]string      `json:"out,omitempty"`        // engine-predicted outputs
 	Viol    []string               `json:"violations,omitempty"` // labels the engine predicts to fail
 	Panics  bool                   `json:"panics,omitempty"`
 	Approx  bool                   `json:"approx,omitempty"` // an over-approximating stub was used: outputs are not predicted
